@@ -31,7 +31,7 @@ TIE = '((%s) == H[L-1])' % HG
 def _history_case(h, factory, kwargs, spec, needs_window=True):
     info = h.choice('info', [False, True])
     f = h.call(h.get(T + factory), **kwargs)
-    H = h.list_real('H')
+    H = h.list_real('H', inf=True)
     inst = _inst(h, energy_history=H)
     L = h.len(H)
     gens = kwargs.get('generations', 0)
